@@ -47,9 +47,10 @@ var propertyConfigs = map[string]*propertyConfig{
 		Explain: "Abstract contracts on the collective public-key protocol: GenShare = e_i - s_i*crp with one fresh error draw, in NTT/Montgomery form on Q and P; AggregateShares = +; GenPublicKey = (aggregate, crp). " +
 			"Lemma over the contracts (stated): aggregation being + in a commutative ring, the key is (sum e_i - (sum s_i)*crp, crp) for every order and grouping.  " +
 			"Galois keys: AggregateShares keeps the Galois element and refuses shares of different elements; GenShare tags the share with the element and returns (no nil dereference, obligation kind nil-deref under `nilsafe`) with and without an auxiliary modulus P (finding F29).  " +
+			"Share generation of evaluation keys and of round one of the relinearisation key, PREFIX contracts (clause `upto firstloop`: the state in which the digit loops start; the loops themselves are not covered): the buffer holds the secret-key term (P*s_i, or s_i itself without auxiliary modulus) in the NTT domain, OUT of the Montgomery domain for the relinearisation key (it is added to an error that is not in Montgomery form) and IN Montgomery form for evaluation keys, and the ephemeral secret is in NTT and Montgomery form, with and without P.  " +
 			"Finalisation (EvaluationKeyGenProtocol.GenEvaluationKey, a BOUNDED instance labelled #ragged: two RNS components with one and two power-of-two digits): every digit of the aggregated share and of the reference polynomials reaches the key (finding F28).",
 		Assumptions: append(append([]string{}, engineBAssumptions...), "BOUNDED, not a proof: the GenEvaluationKey obligations are for one ragged shape (digit counts [1 2], loops unwound); the general statement needs an invariant over a ragged matrix, which the abstract engine does not have",
-			"NOT decided: the GenShare digit loops of the evaluation-key and relinearisation-key protocols (row-level gadget factors), noise bounds, the common reference string"), Trusted: stdTrusted,
+			"NOT decided: the GenShare digit loops of the evaluation-key and relinearisation-key protocols (row-level gadget factors; only the state they start from is under contract), noise bounds, the common reference string"), Trusted: stdTrusted,
 	},
 	"C15": {
 		ID: "C15", Packages: []string{"./..."}, Level: "proof",
